@@ -143,6 +143,40 @@ func ddIfConds(body ast.Node) []string {
 	return r
 }
 
+// ddStrLits lists the string literals in body (unquoted), in source order.
+func ddStrLits(body ast.Node) []string {
+	var r []string
+	if body == nil {
+		return []string{"unknown"}
+	}
+	ast.Inspect(body, func(n ast.Node) bool {
+		if b, ok := n.(*ast.BasicLit); ok && b.Kind == token.STRING {
+			r = append(r, strings.Trim(b.Value, "\"`"))
+		}
+		return true
+	})
+	return r
+}
+
+// ddReturnTexts lists the result expressions of all return statements in body, in source order.
+func ddReturnTexts(body ast.Node) []string {
+	var r []string
+	if body == nil {
+		return []string{"unknown"}
+	}
+	ast.Inspect(body, func(n ast.Node) bool {
+		if rs, ok := n.(*ast.ReturnStmt); ok {
+			var ps []string
+			for _, x := range rs.Results {
+				ps = append(ps, text(x))
+			}
+			r = append(r, strings.Join(ps, ", "))
+		}
+		return true
+	})
+	return r
+}
+
 func factsDedup() {
 	cf := parse("pkg/dedup/chunk_iter.go")
 	toChunk := body(fn(cf, "aggrChunkIterator", "toChunk"))
@@ -164,6 +198,13 @@ func factsDedup() {
 	emitList("dedupPenA", src+".Next: values assigned to it.penA, in source order", assignsTo(next, "it.penA"))
 	emitList("dedupPenB", src+".Next: values assigned to it.penB, in source order", assignsTo(next, "it.penB"))
 	emitList("dedupUseA", src+".Next: values assigned to it.useA, in source order", assignsTo(next, "it.useA"))
+
+	// C01/C02: which function names of the select hints are treated as counter functions
+	isc := body(fn(f, "", "isCounter"))
+	emitList("dedupCounterFuncs", "pkg/dedup/iter.go isCounter: every function name the function mentions", ddStrLits(isc))
+	emitList("dedupCounterReturns", "pkg/dedup/iter.go isCounter: its return statements", ddReturnTexts(isc))
+	nsb := body(fn(f, "", "newDedupSeries"))
+	emitList("dedupNewSeriesCounter", "pkg/dedup/iter.go newDedupSeries: argument of isCounter (the field that selects the counter wrapper)", callArgs(nsb, "isCounter"))
 
 	// C02: counter adjustment
 	adj := body(fn(f, "counterErrAdjustSeriesIterator", "adjustAtValue"))
